@@ -70,6 +70,8 @@ func runHistory(c *histCase, lc localClasses) (sig, detail string, ok bool) {
 		conn interface{ Close() error }
 		port int
 		key  string
+		adv  net.Addr // the address object the generator handed out, and what it said then
+		advS string
 	}
 	var lives []live
 	held := func(p int) bool {
@@ -177,7 +179,15 @@ func runHistory(c *histCase, lc localClasses) (sig, detail string, ok bool) {
 		if sig != "" {
 			return sig, fmt.Sprintf("step %d: %s; open before %v, after %v", i, describe(res), pre, open(nw, proto)), true
 		}
-		lives = append(lives, live{res.conn, lport, key})
+		lives = append(lives, live{res.conn, lport, key, res.adv, res.adv.String()})
+		// the relayed address handed out for an allocation is that allocation's for good: the manager
+		// keeps the object (Allocation.RelayAddr), so a later allocation must not re-write it
+		for _, l := range lives {
+			if now := l.adv.String(); now != l.advS {
+				return "history:advertised-address-of-a-live-allocation-changed-by-a-later-allocation",
+					fmt.Sprintf("step %d: the address handed out for the live socket on port %d read %s then and reads %s now", i, l.port, l.advS, now), true
+			}
+		}
 		kind := "any"
 		if port != 0 {
 			kind = "requested"
